@@ -75,6 +75,26 @@ fn gen() -> Vec<Case> {
             }
         }
     }
+    // long words and a long valid prefix: the message must still name the keyword and quote the
+    // whole offending word
+    for n in [10usize, 31, 32, 33, 47, 48, 49, 63, 64, 65, 100, 127, 128, 129, 255, 256, 257, 1000] {
+        let long = "x".repeat(n);
+        out.push(Case { input: format!("-uid {long}"), kw: Some("-uid"), word: long.clone(), family: "long-invalid-word" });
+        out.push(Case { input: format!("-true -size {long} -print"), kw: Some("-size"), word: long.clone(), family: "long-invalid-word" });
+        out.push(Case { input: format!("-type {long}"), kw: Some("-type"), word: long.clone(), family: "long-invalid-word" });
+        out.push(Case { input: format!("-perm {long}"), kw: Some("-perm"), word: long.clone(), family: "long-invalid-word" });
+        out.push(Case { input: format!("-true {long}"), kw: None, word: long.clone(), family: "unknown-word" });
+        out.push(Case { input: format!("-true -{long} -print"), kw: None, word: format!("-{long}"), family: "unknown-word" });
+        let uni = format!("{}é{}", "x".repeat(n), "y".repeat(5));
+        out.push(Case { input: format!("-uid {uni}"), kw: Some("-uid"), word: uni.clone(), family: "long-invalid-word" });
+        out.push(Case { input: format!("-true {uni}"), kw: None, word: uni.clone(), family: "unknown-word" });
+        if n <= 300 {
+            let prefix = vec!["-name p"; n].join(" -o ");
+            out.push(Case { input: format!("{prefix} -o -uid x"), kw: Some("-uid"), word: "x".into(), family: "invalid-argument" });
+            out.push(Case { input: format!("{prefix} -o -mtime"), kw: Some("-mtime"), word: String::new(), family: "missing-at-end" });
+            out.push(Case { input: format!("{prefix} foo"), kw: None, word: "foo".into(), family: "unknown-word" });
+        }
+    }
     for w in ["foo", "-foo", "-bogus"] {
         out.push(Case { input: format!("( -true -o {w})"), kw: None, word: w.to_string(), family: "unknown-word" });
         out.push(Case { input: format!("({w})"), kw: None, word: w.to_string(), family: "unknown-word" });
@@ -165,9 +185,26 @@ fn check(c: &Case, acc: &mut Acc) {
     }
 }
 
+fn every_character() -> Acc {
+    speclib::report::par_cases(0x10000, |cp, acc| {
+        let c = match char::from_u32(cp as u32) {
+            Some(c) if (c as u32) >= 0x80 && !c.is_control() && !c.is_whitespace() => c,
+            _ => return,
+        };
+        for case in [
+            Case { input: format!("-uid {c}"), kw: Some("-uid"), word: c.to_string(), family: "invalid-argument" },
+            Case { input: format!("-true -size x{c}z -print"), kw: Some("-size"), word: format!("x{c}z"), family: "invalid-argument" },
+            Case { input: format!("-true bogus{c}"), kw: None, word: format!("bogus{c}"), family: "unknown-word" },
+            Case { input: format!("{c}"), kw: None, word: c.to_string(), family: "unknown-word" },
+        ] {
+            check(&case, acc);
+        }
+    })
+}
+
 pub fn run(ctx: &Ctx) -> i32 {
     let cases = gen();
-    let acc = par_items(&cases, check);
+    let acc = par_items(&cases, check).merge(every_character());
     finish(
         ctx,
         acc,
@@ -175,7 +212,7 @@ pub fn run(ctx: &Ctx) -> i32 {
             level: "model_checking",
             exhaustive: true,
             rule: "state = (prefix, keyword, missing | invalid-from-first-character argument word, suffix) and (base, unknown word, suffix); the Display text of the returned error is inspected; distinct = distinct error texts".into(),
-            bound: "every argument-taking keyword x every argument position x {missing at end, missing before ')', each invalid word of its language} x 4 prefixes x 3 suffixes; 7 unknown words x 6 bases x 3 suffixes".into(),
+            bound: "every argument-taking keyword x every argument position x {missing at end, missing before ')', each invalid word of its language} x 4 prefixes x 3 suffixes; 7 unknown words x 6 bases x 3 suffixes; invalid and unknown words of 10..1000 characters; errors after a valid prefix of 10..300 primaries; every non-ASCII printable character of the Basic Multilingual Plane as / inside the offending word".into(),
             assumptions: vec!["a word counts as quoted when it stands between a pair of `, ' or \" characters".into()],
             extra: serde_json::Map::new(),
         },
